@@ -810,6 +810,11 @@ def r6_select(toks, stats, env="env"):
         cb = m[ob]
         arms = []
         k = ob + 1
+        # `biased;`: branches are polled in the order written, so the first ready one is taken (tokio's documented meaning)
+        biased = False
+        if toks[k].s == "biased" and toks[k + 1].s == ";":
+            biased = True; k += 2
+            stats["R6.biased"] = stats.get("R6.biased", 0) + 1
         while k < cb:
             # pattern up to first top-level '='
             p0 = k
@@ -853,7 +858,7 @@ def r6_select(toks, stats, env="env"):
         new = [Tok("o", "{", None, 0, True)]
         for i, (patt, fut, guard, body) in enumerate(arms):
             new += T("let mut vx_f%d =" % i) + fut + T(";")
-        new += T("match vx_select%d(" % n)
+        new += T("match vx_select%s%d(" % ("_biased" if biased else "", n))
         for i, (patt, fut, guard, body) in enumerate(arms):
             if guard is not None:
                 new += T("vx_guard(vx_f%d.vx_branch()," % i) + guard + T("),")
